@@ -3,6 +3,28 @@ import importlib, json, os, sys
 sys.path.insert(0, os.path.dirname(os.path.abspath(__file__)))
 ROOT = os.path.dirname(os.path.abspath(__file__))
 props = [json.loads(l) for l in open(os.path.join(ROOT, 'properties.jsonl'))]
+LEVEL = {
+ 'C01': ('Exploration: every generated tree is written under all 14 (indent, compact) pairs and re-parsed (tree and metadata equality, identical token streams under the reference scanner, fixed point); accepted short strings are enumerated exhaustively; a universal claim over trees x options can only be sampled, so the level is exploration with measured coverage.', 'Trusts pv/ref/lex.py for token-stream comparison and the tree/metadata generators; penman.parse is used as the inverse of penman.format (that is the property).'),
+ 'C02': ('Exploration with a bounded-exhaustive core: every well-formed tree with <= 3/4 branches over a small alphabet plus random larger trees x five model families; oracle = identity of configure o interpret (up to "(a /)") and of encode o decode on text.', 'Well-formedness is decided by the reference interpreter pv/ref/interp.py; text is produced with penman.format (C01).'),
+ 'C03': ('Exploration with a bounded-exhaustive core: small graphs x every top x all permutations of the triple list, random decoded and hand-built graphs x every top; oracle = multiset equality of triples up to one deinversion, same variables, requested top; coverage-guided structured fuzzing in the thorough tier.', 'Content comparison by pv/ref/graphm.py and the role algebra pv/ref/role.py; no-op model out of scope for re-topping.'),
+ 'C04': ('Exploration: differential against an independently written interpreter of the documented reading (top, variables, ordered triples, alignments) over arbitrary, also ill-formed, trees x models, plus all small trees.', 'Trusts pv/ref/interp.py as the documented reading (written from docs/notation.rst, docs/structures.rst).'),
+ 'C05': ('Exploration: metamorphic (content unchanged by rearrange / reconfigure / new top from every variable) plus exact order oracle (stable sort under an independent role key).', 'Trusts the independent sort keys in pv/ref/role.py; random keys only get the content/multiset clauses.'),
+ 'C06': ('Exploration over edit histories: marker edit scripts and a rule-based state machine on decoded graphs (content preserved from every top), arbitrary triple lists against a reference connectivity model (LayoutError iff disconnected or top not a variable, no other exception); coverage-guided structured fuzzing in the thorough tier.', 'Trusts the connectivity reference in pv/ref/graphm.py; Push(non-variable target) is the documented node-creating marker and is not generated.'),
+ 'C07': ('Exploration with large bounded-exhaustive cores (all strings <= 5/6 over 16 symbols, token sequences, string atoms) plus grammar-based random texts with mutations and nesting to 200 and coverage-guided byte fuzzing; differential against an independent recogniser incl. error line/column.', 'Trusts pv/ref/lex.py + pv/ref/parse.py as the documented grammar; the conjunction grammar is specification by example.'),
+ 'C08': ('Exploration with a bounded-exhaustive core (all strings <= 4/5 over 24 symbols incl. every blank and exotic separator), both patterns, str and list-of-lines; tiling invariants plus token-by-token differential against a hand-written scanner.', 'Trusts pv/ref/lex.py; inside strings every character up to the end of line is content.'),
+ 'C09': ('Exploration: generated streams through seven containers x three terminators x three separators must yield the graphs that were written (interpreted directly from the generated trees), dumps/loads and dump/load round trips.', 'Files are real files in a per-run directory; StringIO in universal-newline mode.'),
+ 'C10': ('Exploration: differential against a reference relabelling and structural-rename oracle on tree and interpretation.', 'Formats contain {i} or {j} (usage precondition of the collision loop).'),
+ 'C11': ('Exploration: round-trip oracle on generated graphs inside the stated precondition (computed from the table), invariants of the reified graph, targeted generator for protected nodes.', 'Role unambiguity is computed from the table by pv/props/c11.py; AMR :superset excluded by that rule.'),
+ 'C12': ('Exploration over programs: all transformation sequences of length <= 3 (by index) and sampled longer ones on generated graphs incl. reified nodes written in the text; invariants after every step plus inverse oracles.', 'Well-formedness/connectivity judged by the reference graph model.'),
+ 'C13': ('Exploration, exhaustive over base + k x "-of" for every role of the shipped models; algebraic laws plus differential against a reference role algebra; random tables/roles/trees.', 'Random tables obey the two restrictions stated in DESIGN section 3; canonical form defined as the parity-preserving double-inversion fixed point.'),
+ 'C14': ('Exploration with a bounded-exhaustive core: differential of node_contexts / get_pushed_variable / appears_inverted against layout facts recorded by the reference interpreter.', 'Layout facts come from pv/ref/interp.py; marker-free graphs only get the totality clauses.'),
+ 'C15': ('Model-based exploration: exhaustive over all lists of <= 3 triples x tops for the queries, a list/set model for | |= - -= driven by random histories and a Hypothesis rule-based state machine.', 'Operands of set operations are duplicate-free; markers of shared triples not asserted.'),
+ 'C16': ('Exploration: differential of Model.errors against a reference checker on arbitrary triple lists; in-process runs of the command on generated multi-file inputs (1-in-50 cross-checked as subprocess) for exit status and error metadata.', 'Reference: per-pattern full match, single -of strip, undirected reachability over edges.'),
+ 'C17': ('Exploration over call histories (rule-based state machine) with by-value snapshots of all shared arguments, repeat/earlier-call equality, re-run on pickled arguments and in fresh interpreters under other hash seeds (digest comparison), CLI output bytes across hash seeds.', 'No threads in the library: schedules reduce to call order, process boundary and hash seed.'),
+ 'C18': ('Exploration with bounded-exhaustive cores (all strings <= 3/4 over 19 symbols, all atom texts <= 4/5 over 17 symbols) plus random text incl. surrogates; round-trip, one-STRING-token (real and reference lexer) and JSON-number-grammar oracles.', 'Reference number grammar = JSON; atoms contain no blanks.'),
+ 'C19': ('Exploration: round trip parse_triples o format_triples and metamorphic re-spelling under every documented spacing variant.', 'Non-empty lists; sources without comma; text targets.'),
+ 'C20': ('Exploration: differential of the command (in-process, 1-in-50 as subprocess) against the documented pipeline as library calls, plus metamorphic clauses (formatting never changes content, fixed point, identity without options).', 'The reference pipeline calls the library functions (decided by C01-C19): this check decides penman/__main__.py. Open findings F15 and F21 are reported as KNOWN-FINDING.'),
+}
 checks, na = [], []
 for p in props:
     pid = p['id']
@@ -27,10 +49,10 @@ for p in props:
         'engine': 'pv',
         'level_claimed': {
             'category': 'exploration',
-            'text': meta.get('LEVEL_TEXT', 'generated-input search against an explicit oracle; held on everything explored'),
+            'text': meta.get('LEVEL_TEXT', LEVEL.get(pid, ('generated-input search against an explicit oracle; held on everything explored', ''))[0]),
             'design_ref': meta.get('DESIGN_REF', 'DESIGN.md section 5, ' + pid),
         },
-        'level_note': meta.get('LEVEL_NOTE', 'trusts the reference models in pv/ref and the generators in pv/gen; no proof of absence'),
+        'level_note': meta.get('LEVEL_NOTE', (LEVEL.get(pid, ('', ''))[1] + ' No proof of absence: held on everything explored.').strip()),
         'technique': meta.get('TECHNIQUE', 'property-based testing (Hypothesis) + bounded-exhaustive enumeration against a reference oracle'),
     })
 m = {
